@@ -183,7 +183,16 @@ def call_builtin(ex, name, args, kwargs, node):
         a, b = ex.val(args[0]), ex.val(args[1])
         q = ex.binop(ast.FloorDiv(), a, b); r = ex.binop(ast.Mod(), a, b)
         return V(TTuple([TInt, TInt]), [q, r])
-    if name in ('dict', 'immutables.Map'):
+    if name in ('immutables.Map', 'immu.Map') and len(args) == 1 and not kwargs:
+        a = ex.val(args[0])
+        if isinstance(a.ty, TTuple) and all(isinstance(x.ty, TTuple) and len(x.t) == 2 for x in a.t) and a.t:
+            kty = T._join_all([x.t[0].ty for x in a.t]); vty = T._join_all([x.t[1].ty for x in a.t])
+            mv = coerce(V(TTuple([]), []), T.TMap(kty, vty))
+            for x in a.t: mv = setitem(ex, mv, x.t[0], x.t[1])
+            return mv
+    if name == 'dict' and not args and kwargs and '**' not in kwargs:
+        return E.KwDict(kwargs)
+    if name in ('dict', 'immutables.Map', 'immu.Map'):
         if not args and not kwargs: return V(TTuple([]), [])
         raise Unsupported('dict(...)')
     if name in ('collections.defaultdict', 'defaultdict', 'collections.OrderedDict', 'OrderedDict') or (name in ('collections.deque', 'deque') and not args):
@@ -387,6 +396,10 @@ def _seq_of_set(ex, s):
 # ------------------------------------------------------------------ methods on builtin types
 def call_method_builtin(ex, bm, args, kwargs, node):
     recv, name = bm.recv, bm.name
+    if name == 'update' and len(args) == 1 and isinstance(args[0], E.KwDict):
+        if isinstance(recv, E.KwDict): recv.items.update(args[0].items); return NONE
+        if isinstance(recv, V) and isinstance(recv.ty, TTuple) and not recv.t:      # {}.update(dict(...))
+            ex.assign(bm.recv_node, E.KwDict(args[0].items)); return NONE
     from . import strlib
     if isinstance(recv, strlib.RegexV) and name == 're.sub':
         return ex.vf.regex_sub(ex, recv, args, kwargs)
@@ -677,7 +690,7 @@ def _map_method(ex, bm, recv, name, args, kwargs):
         d2, c2, fct = T.set_update(dom, card, kt, True); ex.assume(fct)
         nv = V(ty, (d2, z3.Store(val, kt, pack(coerce(r, ty.v))), c2))
         ex.assign(bm.recv_node, nv); return r
-    if name == 'copy': return recv
+    if name in ('copy', 'finish', 'mutate'): return recv
     if name == 'set' :   # immutables.Map.set -> new map
         return setitem(ex, recv, args[0], args[1])
     if name == 'delete':
@@ -813,11 +826,25 @@ def _quant(ex, name, a):
     if not isinstance(lam, E.LambdaV): raise Unsupported('%s needs a lambda' % name)
     params = [p.arg for p in lam.node.args.args]
     depth = ex.qdepth
+    pats = []
     def body(bind):
         saved = ex.st.env
         ex.st.env = dict(lam.env); ex.st.env.update(saved); ex.st.env.update(bind)
         ex.qdepth += 1
-        try: return truth(ex.val(ex.eval(lam.node.body)))
+        try:
+            bnode = lam.node.body
+            if isinstance(bnode, ast.Call) and isinstance(bnode.func, ast.Name) and bnode.func.id == 'guarded' and len(bnode.args) == 2:
+                # guarded(g, B):  g ==> B  with g as the only instantiation pattern.  g is an uninterpreted guard token: a proof that is
+                # parametric in g holds in particular for g == True, so the guarded and the plain statement are interchangeable
+                g = truth(ex.val(ex.eval(bnode.args[0]))); b = truth(ex.val(ex.eval(bnode.args[1])))
+                pats.append(g)
+                return z3.Implies(g, b) if name == 'forall' else z3.And(g, b)
+            if isinstance(bnode, ast.Call) and isinstance(bnode.func, ast.Name) and bnode.func.id == 'triggered' and len(bnode.args) == 2:
+                # triggered(term, B): B with `term` as the only instantiation pattern (term must mention every bound variable)
+                pt = ex.val(ex.eval(bnode.args[0])); b = truth(ex.val(ex.eval(bnode.args[1])))
+                pats.append(pt.t if isinstance(pt, V) and not isinstance(pt.t, (list, tuple, dict)) else truth(pt))
+                return b
+            return truth(ex.val(ex.eval(bnode)))
         finally: ex.st.env = saved; ex.qdepth -= 1
     # bound variables get canonical names (parameter name + nesting depth): evaluating the same clause over the same state
     # yields the identical term, which prove() recognises among the hypotheses
@@ -831,10 +858,18 @@ def _quant(ex, name, a):
     if isinstance(dom, E.TypeObj):
         tys = [x.ty for x in a[:-1]]
         facts = []
-        xs = [V(t, bconst(p, T.sort_of(t))) if (isinstance(t, (T.TRef, T.TAny, T.TEnum)) or t in (TInt, TStr, TBool)) else havoc(t, p, facts) for t, p in zip(tys, params)]
+        xs = []; consts = []
+        for t, p in zip(tys, params):
+            if isinstance(t, (T.TRef, T.TAny, T.TEnum)) or t in (TInt, TStr, TBool):
+                cst = bconst(p, T.sort_of(t)); xs.append(V(t, cst)); consts.append(cst)
+            elif isinstance(t, (T.TMap, T.TSet, T.TSeq, T.TOpt)):
+                cst = bconst(p, T.sort_of(t)); x_ = unpack(cst, t); xs.append(x_); consts.append(cst)      # one bound variable of the packed sort
+                facts.extend(T.type_facts(x_))
+            else:
+                x_ = havoc(t, p, facts); xs.append(x_); consts.extend(_consts_of([x_]))
         b = body(dict(zip(params, xs)))
-        consts = _consts_of(xs)
         if facts: b = z3.Implies(z3.And(*facts), b) if name == 'forall' else z3.And(*(facts + [b]))
+        if pats and name == 'forall': return vbool(z3.ForAll(consts, b, patterns=[pats[-1]]))
         return vbool(z3.ForAll(consts, b) if name == 'forall' else z3.Exists(consts, b))
     if isinstance(dom.ty, TSeq):
         i = fresh('qi', z3.IntSort())
